@@ -85,12 +85,18 @@ def run(cmd, cwd=None, timeout=3600, input=None):
     return p.returncode, p.stdout + p.stderr
 
 
+def property_files(prop):
+    """Properties/<prop>.lean plus split files Properties/<prop><Suffix>.lean (same namespace SR.<prop>)."""
+    d = LEAN / "SRVerif" / "Properties"
+    return sorted(p for p in d.glob(f"{prop}*.lean") if re.fullmatch(rf"{prop}([A-Z][A-Za-z]*)?\.lean", p.name))
+
+
 def theorem_names(prop):
-    path = LEAN / "SRVerif" / "Properties" / f"{prop}.lean"
-    if not path.exists():
-        return []
-    text = strip_comments(path.read_text())
-    return re.findall(r"^theorem\s+([A-Za-z0-9_'.]+)", text, flags=re.M)
+    names = []
+    for path in property_files(prop):
+        text = strip_comments(path.read_text())
+        names += re.findall(r"^theorem\s+([A-Za-z0-9_'.]+)", text, flags=re.M)
+    return names
 
 
 def forbidden_hits():
@@ -132,7 +138,8 @@ def lean_build(prop, thorough=False):
     if rc != 0 or not DRIVER.exists():
         # The driver contains hand-written models only: this is our fault.
         raise Infra("driver build failed:\n" + log[-3000:])
-    rc, log = run(["lake", "build", f"SRVerif.Properties.{prop}"], cwd=LEAN)
+    mods = [f"SRVerif.Properties.{p.stem}" for p in property_files(prop)] or [f"SRVerif.Properties.{prop}"]
+    rc, log = run(["lake", "build"] + mods, cwd=LEAN)
     out["log"] = log[-6000:]
     out["build_ok"] = rc == 0
     thms = theorem_names(prop)
@@ -147,7 +154,7 @@ def lean_build(prop, thorough=False):
         return out
     audit = LEAN / ".lake" / f"audit_{prop}.lean"
     audit.write_text(
-        f"import SRVerif.Properties.{prop}\n"
+        "".join(f"import {m}\n" for m in mods)
         + "".join(f"#print axioms SR.{prop}.{t}\n" for t in thms)
     )
     rc, log = run(["lake", "env", "lean", str(audit)], cwd=LEAN)
@@ -169,7 +176,6 @@ def lean_build(prop, thorough=False):
         ]
         return out
     if thorough:
-        mods = [f"SRVerif.Properties.{prop}"]
         rc, log = run(["lake", "env", "leanchecker"] + mods, cwd=LEAN, timeout=3000)
         out["leanchecker"] = "ok" if rc == 0 else log[-2000:]
         if rc != 0:
